@@ -82,7 +82,7 @@ def main():
     v = Verdict("C11", tier)
     n = 1 if tier == "quick" else 4
     c01, c05, c02, c03 = load("c01"), load("c05"), load("c02"), load("c03")
-    items = c01["grid_items"](rng, (6 if tier == "quick" else 32), (1 if tier == "quick" else 8), bitpos=tier != "quick")
+    items = c01["grid_items"](rng, (6 if tier == "quick" else 32), (1 if tier == "quick" else 8), bitpos=tier != "quick", narrow=tier != "quick")
     fl, _ = c02["grid_items"](rng, (10 if tier == "quick" else 56), (6 if tier == "quick" else 32), 0 if tier == "quick" else None, classes=tier != "quick")
     items += fl
     mods = {3: c05["build_module"](3)}
